@@ -4,6 +4,7 @@ Ties (T1) of the VM model to facts regenerated from protocol/vm/*.go on every ru
 first `applyCost` of every handler.  Used by C07 and C08.
 -/
 import BytomModel.Gen.VMOps
+import BytomModel.Gen.VMCrypto
 import BytomModel.Model.VM.Step
 namespace BytomModel.Ties.C08
 open BytomModel.VM BytomModel.Gen.VMOps
@@ -26,5 +27,9 @@ theorem checkpredicate_cost_tie : firstCost.lookup 0xc0 = some 256 ∧ baseCost 
 theorem handlers_without_first_cost :
     definedOps.filter (fun b => (firstCost.lookup b).isNone) = [0xa8, 0xaa, 0xab, 0xad] := by
   decide +kernel
+
+/-- CHECKSIG / CHECKMULTISIG verify with the standard library's Ed25519 (which rejects
+    non-canonical S ≥ L), the verifier the harness's oracle table is computed with -/
+theorem ed25519_import_tie : BytomModel.Gen.VMCrypto.ed25519Import = "crypto/ed25519" := by decide
 
 end BytomModel.Ties.C08
